@@ -377,6 +377,7 @@ package tree
 //@   flag noframe
 //@   flag countcalls
 //@   allocates chan, EdgeIndex, hashmap.HashMap
+//@   assigns ghost(go_count), ghost(wg_add)
 //@   ensures [channel_or_error] result1 == nil ==> result0 != nil
 //@   ensures [no_reference_tree_is_an_error] refTree == nil ==> result1 != nil
 //@   ensures [the_reference_tree_is_reindexed_exactly_once] refTree != nil ==> ghost(ncalls_ReinitIndexes) == old(ghost(ncalls_ReinitIndexes)) + 1
@@ -401,6 +402,7 @@ package tree
 //@   flag noframe
 //@   flag countcalls
 //@   allocates chan, EdgeIndex, hashmap.HashMap
+//@   assigns ghost(go_count), ghost(wg_add)
 //@   ensures [channel_or_error] result1 == nil ==> result0 != nil
 //@   ensures [no_reference_tree_is_an_error] refTree == nil ==> result1 != nil
 //@   ensures [the_reference_tree_is_reindexed_exactly_once] refTree != nil ==> ghost(ncalls_ReinitIndexes) == old(ghost(ncalls_ReinitIndexes)) + 1
